@@ -74,7 +74,8 @@ def scan(source: str, callback: callable):
 
         scanner.start = scanner.pos
         block_end = scanner.eat(Chars.RightCurly)
-        if block_end or scanner.eat(Chars.Semicolon):
+        # Semicolon inside parentheses, e.g. `url(data:image/png;base64,...)`, is not a delimiter
+        if block_end or (state.expression <= 0 and scanner.eat(Chars.Semicolon)):
             # Block or property end
             if state.property_start != -1:
                 # We have pending property
